@@ -625,6 +625,7 @@ func (mux *abciMux) BeginBlock(req types.RequestBeginBlock) types.ResponseBeginB
 
 	// Dispatch BeginBlock to all applications.
 	for _, app := range mux.appsByLexOrder {
+		api.VerifTap("beginblock.pre", app.Name(), ctx, nil)
 		if err := app.BeginBlock(ctx); err != nil {
 			mux.logger.Error("BeginBlock: fatal error in application",
 				"err", err,
@@ -636,6 +637,7 @@ func (mux *abciMux) BeginBlock(req types.RequestBeginBlock) types.ResponseBeginB
 			}
 			panic(fmt.Errorf("mux: BeginBlock: fatal error in application: '%s': %w", app.Name(), err))
 		}
+		api.VerifTap("beginblock.post", app.Name(), ctx, nil)
 	}
 
 	response := mux.BaseApplication.BeginBlock(req)
@@ -715,7 +717,9 @@ func (mux *abciMux) DeliverTx(req types.RequestDeliverTx) types.ResponseDeliverT
 	ctx := mux.state.NewContext(api.ContextDeliverTx)
 	defer ctx.Close()
 
+	api.VerifTap("delivertx.pre", "", ctx, req.Tx)
 	if err := mux.executeTx(ctx, req.Tx); err != nil {
+		api.VerifTap("delivertx.post", "", ctx, err)
 		if api.IsUnavailableStateError(err) {
 			// Make sure to not commit any transactions which include results based on unavailable
 			// and/or corrupted state -- doing so can further corrupt state.
@@ -738,6 +742,7 @@ func (mux *abciMux) DeliverTx(req types.RequestDeliverTx) types.ResponseDeliverT
 		}
 	}
 
+	api.VerifTap("delivertx.post", "", ctx, nil)
 	mux.processProvableEvents(ctx)
 
 	return types.ResponseDeliverTx{
@@ -770,6 +775,7 @@ func (mux *abciMux) EndBlock(req types.RequestEndBlock) types.ResponseEndBlock {
 	// Dispatch EndBlock to all applications.
 	resp := mux.BaseApplication.EndBlock(req)
 	for _, app := range mux.appsByLexOrder {
+		api.VerifTap("endblock.pre", app.Name(), ctx, nil)
 		newResp, err := app.EndBlock(ctx)
 		if err != nil {
 			mux.logger.Error("EndBlock: fatal error in application",
@@ -781,6 +787,7 @@ func (mux *abciMux) EndBlock(req types.RequestEndBlock) types.ResponseEndBlock {
 		if app.Blessed() {
 			resp = newResp
 		}
+		api.VerifTap("endblock.post", app.Name(), ctx, nil)
 	}
 
 	// Run any EndBlock upgrade handlers when there is an upgrade.
